@@ -8,9 +8,10 @@
 (* machine yields is the reference walk of FindWalk - except for one named  *)
 (* deviation, the open finding of C02:                                     *)
 (*   (with -H and -depth a starting point that is a link to a directory is *)
-(*   yielded by walkdir before its contents: to walkdir it is a symbolic   *)
-(*   link, pushed through the root special case but not deferred;          *)
-(*   process_dir holds it back - `held` - since the repair 9d712f1)        *)
+(*   not deferred by walkdir - to it the entry is a symbolic link - and    *)
+(*   everything deferred below it comes out one level late; since the      *)
+(*   repair 1d14b81 process_dir walks its contents from the spelling with  *)
+(*   a trailing slash and evaluates the starting point itself last: `held`)*)
 (*   DevLostLink   under -L a link to a directory that cannot be opened is *)
 (*                 lost: the loop check in follow() opens the target and   *)
 (*                 its error replaces the entry.                           *)
@@ -74,12 +75,8 @@ Apply(tree, cfg, root, h, st) ==
   ELSE
     LET e == h.e
         pushed == IF h.push THEN Append(st.stack, Frame(tree, e.path, e.eff, e.depth)) ELSE st.stack
-        \* walkdir does not defer a starting point that is a link followed because of -H (to walkdir it is a link);
-        \* process_dir holds it back until the iterator is exhausted
-        hold == cfg.depth /\ cfg.mode = "H" /\ e.depth = 0 /\ tree[e.node].kind = "l" /\ e.dir
     IN IF h.defer THEN [stack |-> pushed, deferred |-> Append(st.deferred, e), out |-> st.out, errs |-> st.errs, skip |-> FALSE, held |-> st.held]
        ELSE IF Skippable(cfg, e.depth) \/ ~Evaluated(cfg, e) THEN [stack |-> pushed, deferred |-> st.deferred, out |-> st.out, errs |-> st.errs, skip |-> FALSE, held |-> st.held]
-       ELSE IF hold THEN [stack |-> pushed, deferred |-> st.deferred, out |-> st.out, errs |-> st.errs, skip |-> FALSE, held |-> <<e>>]
        ELSE [stack |-> IF PruneFires(tree, cfg, e, root) /\ pushed # <<>> THEN SubSeq(pushed, 1, Len(pushed) - 1) ELSE pushed,
              deferred |-> st.deferred, out |-> Append(st.out, e), errs |-> st.errs,
              \* (skip_current_dir() is called whenever -prune fired; with an empty stack it does nothing)
@@ -90,12 +87,28 @@ Set(s) == stack' = s.stack /\ deferred' = s.deferred /\ out' = s.out /\ errs' = 
 
 WInit == stack = <<>> /\ deferred = <<>> /\ out = <<>> /\ errs = 0 /\ phase = "start" /\ skipped = FALSE /\ held = <<>>
 
+\* -H -depth and a starting point that is a symbolic link to a directory (not already spelled with a trailing slash,
+\* and not cut off by -maxdepth 0): walkdir would not defer it - to walkdir it is a link
+RootIsFollowedLink(tree, cfg, root) ==
+  /\ cfg.depth /\ cfg.mode = "H" /\ cfg.max > 0 /\ root.spell[Len(root.spell)] # SLASH
+  /\ tree[root.node].kind = "l" /\ tree[root.node].target # 0 /\ tree[tree[root.node].target].kind = "d"
+IsGhost(e) == "ghost" \in DOMAIN e
+
 \* the starting point
 Start(tree, cfg, root) ==
   /\ phase = "start"
   /\ IF root.node = 0
      THEN \* a starting point that does not exist: the iterator's first item is an error, and that is all
           Set([St EXCEPT !.errs = errs + 1])
+     ELSE IF RootIsFollowedLink(tree, cfg, root)
+     THEN \* process_dir walks the contents from the spelling with a trailing slash - to walkdir a directory like any
+          \* other: pushed, deferred, and never yielded because min_depth is at least 1 there - and keeps the starting
+          \* point as it was given for the end
+          LET tgt == tree[root.node].target
+              ghost == [path |-> root.spell \o <<SLASH>>, depth |-> 0, node |-> root.node, eff |-> tgt, dir |-> TRUE, ghost |-> TRUE]
+              own == [path |-> root.spell, depth |-> 0, node |-> root.node, eff |-> tgt, dir |-> TRUE]
+          IN Set([St EXCEPT !.stack = <<Frame(tree, ghost.path, tgt, 0)>>, !.deferred = <<ghost>>,
+                            !.held = IF cfg.min = 0 THEN <<own>> ELSE <<>>])
      ELSE Set(Apply(tree, cfg, root.node, Handle(tree, cfg, root.spell, root.node, 0, {}, root.node), St))
   /\ phase' = "loop"
 
@@ -104,7 +117,7 @@ YieldDeferred(tree, cfg, root) ==
   /\ phase = "loop" /\ stack # <<>> /\ cfg.depth /\ Len(stack) < Len(deferred)
   /\ LET e == deferred[Len(deferred)] IN
      /\ deferred' = SubSeq(deferred, 1, Len(deferred) - 1)
-     /\ out' = IF Skippable(cfg, e.depth) \/ ~Evaluated(cfg, e) THEN out ELSE Append(out, e)
+     /\ out' = IF Skippable(cfg, e.depth) \/ ~Evaluated(cfg, e) \/ IsGhost(e) THEN out ELSE Append(out, e)
   /\ skipped' = FALSE /\ UNCHANGED <<stack, errs, phase, held>>
 
 NoDeferredDue(cfg) == ~(cfg.depth /\ Len(stack) < Len(deferred))
@@ -143,7 +156,7 @@ Drain(tree, cfg, root) ==
   /\ IF cfg.depth /\ deferred # <<>>
      THEN LET e == deferred[Len(deferred)] IN
           /\ deferred' = SubSeq(deferred, 1, Len(deferred) - 1)
-          /\ out' = IF Skippable(cfg, e.depth) \/ ~Evaluated(cfg, e) THEN out ELSE Append(out, e)
+          /\ out' = IF Skippable(cfg, e.depth) \/ ~Evaluated(cfg, e) \/ IsGhost(e) THEN out ELSE Append(out, e)
           /\ skipped' = FALSE /\ UNCHANGED <<stack, errs, phase, held>>
      ELSE IF held # <<>>
      THEN \* the iterator is exhausted: the starting point that was held back is evaluated now
